@@ -8,7 +8,7 @@ from .. import shimlab as S
 ID = "C18"
 LEVEL = "fault_enumeration"
 RULE = ("trees with two groups in nested directories and names with spaces x DIR in {outside the tree, inside the scanned "
-        "tree, on another device, relative, relative with `move` started from another directory than `group`, absolute, with trailing slash} x pre-population of the target {nothing, "
+        "tree, on another device, relative, relative with `move` started from another directory than `group`, relative with a '..' that follows a symlinked component, absolute, with trailing slash} x pre-population of the target {nothing, "
         "colliding file, colliding directory, colliding dangling symlink, colliding symlink to a file} (plain runs); and "
         "for the same-device and other-device targets, empty and colliding: EVERY event k of the recorded mutating-call "
         "history with a SIGKILL before k and with call k failing with EXDEV, EIO, ENOSPC (thorough: + EPERM, EACCES). "
@@ -28,7 +28,7 @@ TREE = [
     {"p": "r/n/caf\udce9", "k": "file", "c": ["base", 300, 3]}, {"p": "r/n/caf\udce8", "k": "file", "c": ["base", 300, 3]},
     {"p": "r/m/caf\udce9", "k": "file", "c": ["base", 300, 3]},
 ]
-PLACEMENTS = ["outside", "inside", "other_device", "relative", "relative_other_cwd", "trailing_slash", "other_mount"]
+PLACEMENTS = ["outside", "inside", "other_device", "relative", "relative_other_cwd", "dotdot_through_symlink", "trailing_slash", "other_mount"]
 PREPOP = ["empty", "file", "dir", "dangling_symlink", "symlink_to_file"]
 
 
@@ -60,6 +60,9 @@ def target_dir(sc, placement):
     if placement == "relative_other_cwd":
         # `move` is started from another directory than `group` was: DIR is relative to where `move` runs
         return "moved rel2", os.path.join(sc.root, "other cwd", "moved rel2")
+    if placement == "dotdot_through_symlink":
+        # DIR = lnk/../moved3 where lnk -> <root>/elsewhere/deep: the kernel resolves it to <root>/elsewhere/moved3
+        return "lnk/../moved3", os.path.join(sc.root, "elsewhere", "moved3")
     if placement == "other_mount":
         # a mount point fclones' own mount table knows: no rename attempt, straight copy + delete
         d = os.path.join(C.EXT4, "fcv.%d.c18loop" % os.getpid(), "moved")
@@ -107,6 +110,12 @@ def _evaluate(case):
         if case["placement"] == "relative_other_cwd":
             run_cwd = os.path.join(sc.root, "other cwd")
             os.makedirs(run_cwd, exist_ok=True)
+
+        if case["placement"] == "dotdot_through_symlink":
+            run_cwd = os.path.join(sc.root, "cwd3")
+            os.makedirs(run_cwd, exist_ok=True)
+            os.makedirs(os.path.join(sc.root, "elsewhere", "deep"), exist_ok=True)
+            os.symlink(os.path.join(sc.root, "elsewhere", "deep"), os.path.join(run_cwd, "lnk"))
 
         def rebuild():
             C.rmtree(sc.tree)
